@@ -49,7 +49,9 @@ fn opname(o: u8) -> &'static str {
 /// operations that talk to a given auxiliary column (docs/src/design/lookups, decoder/main.md, chiplets/main.md)
 fn talks_to(col: usize, op: &str) -> bool {
     match col {
-        0 | 1 if op == "NO_HALT_ROW" => true,
+        // the last END's effect on the decoder tables and its hasher request on b_chip are recorded in the row
+        // after it: without a HALT row that is the random row
+        0 | 1 | 6 if op == "NO_HALT_ROW" => true,
         0 | 1 => matches!(op, "SPLIT" | "LOOP" | "SPAN" | "JOIN" | "DYN" | "SYSCALL" | "CALL" | "END" | "REPEAT" | "RESPAN" | "HALT"),
         2 => matches!(op, "SPAN" | "RESPAN" | "PUSH"),
         5 => matches!(op, "MPVERIFY" | "MRUPDATE" | "SYSCALL"),
@@ -399,6 +401,10 @@ pub fn run(ctx: &Ctx, replay: Option<&Value>) -> i32 {
         }
     }
     if replay.is_some() {
+        // the replayed program is the first of the family: say what was observed for it
+        if let Some(r) = results.first() {
+            println!("replayed program: columns missing their specified value: {:?}; operations talking to buses: {:?}", r.bad_cols.iter().map(|(c, w)| format!("{} ({w})", COLS[*c])).collect::<Vec<_>>(), r.ops);
+        }
         return ctx.finish("exploration", json!({}), &[]);
     }
     for r in results.iter().step_by(results.len() / 5 + 1) {
@@ -426,4 +432,35 @@ pub fn run(ctx: &Ctx, replay: Option<&Value>) -> i32 {
         "stack overflow table and b_range boundary values are asserted by the AIR itself and checked by C03",
         "K stated challenge vectors stand for 'any verifier challenge'",
     ])
+}
+
+/// development aid (`vmc p1dump "<source>"`): rows at which the block stack table column changes
+pub fn dump_p1(src: &str) {
+    let program = assembler().compile(src).expect("program");
+    let mut trace = exec_trace(&program, &[], processor::AdviceInputs::default(), processor::ExecutionOptions::default()).unwrap().unwrap();
+    let ch = airx::challenge_vectors(1, 1).remove(0);
+    let aux = trace.build_aux_segment::<Q>(&[], &ch).unwrap();
+    let main = trace.main_segment();
+    let n = trace.length();
+    for r in 0..n - 2 {
+        let (a, b) = (aux.get(0, r), aux.get(0, r + 1));
+        if a != b {
+            let mut o = 0u8;
+            for k in 0..7 {
+                o |= ((main.get(OPB + k, r).as_int() & 1) as u8) << k;
+            }
+            let hs: Vec<u64> = (0..8).map(|k| main.get(16 + k, r).as_int()).collect();
+            let hs1: Vec<u64> = (0..8).map(|k| main.get(16 + k, r + 1).as_int()).collect();
+            println!("row {r}: opcode {o} addr {} addr' {} h {:?} h' {:?} p1'/p1 = {:?}", main.get(8, r).as_int(), main.get(8, r + 1).as_int(), hs, hs1, b / a);
+        }
+    }
+    println!("p1 at the last non-random row: {:?}", aux.get(0, n - 2));
+    let row = |b: u64, p: u64, l: u64| ch[0] + ch[1] * q(Felt::new(b)) + ch[2] * q(Felt::new(p)) + ch[3] * q(Felt::new(l));
+    println!("row(9,0,0)/row(1,0,0) = {:?}", row(9, 0, 0) / row(1, 0, 0));
+    for l in [41u64, 1] {
+        println!("row(9,0,0)/row(1,0,{l}) = {:?}; row(9,0,{l})/row(1,0,0) = {:?}", row(9, 0, 0) / row(1, 0, l), row(9, 0, l) / row(1, 0, 0));
+    }
+    for (b, p) in [(1u64, 0u64), (9, 0), (17, 0)] {
+        println!("row value ({b},{p},0) = {:?}; inverse = {:?}", row(b, p, 0), row(b, p, 0).inv());
+    }
 }
